@@ -587,7 +587,38 @@ def r12_9(prog: Program, rep: Report):
     return n
 
 
+def r12_10(prog: Program, rep: Report):
+    """A lazy proxy holds a reference (name, module).  References compare by their text, so handing the reference itself to
+    the memoised factory finds the routine of whatever class bore that name when the entry was made.  The proxy must hand
+    over what the reference names *now* (refs.evaluate), which is keyed by the class object."""
+    n = 0
+    for d in ("marshal", "unmarshal"):
+        rows = C.handlers(prog, d)
+        first = rows[0] if rows else None
+        if first is None or first.pred_name != "isforwardref" or first.routine is None:
+            continue
+        api = C.DIRS[d][0]
+        factory = f"{api}.{'marshaller' if d == 'marshal' else 'unmarshaller'}"
+        res = prog.lookup_method(first.routine, "resolved")
+        if res is None:
+            continue
+        raw = evaluated = False
+        for p in P.paths_of(prog, res):
+            for tm in p.all_terms():
+                for x in T.walk(tm):
+                    if T.is_call_to(x, factory) and x[2]:
+                        if x[2][0] == C.sattr("t"):
+                            raw = True
+                        if T.is_call_to(x[2][0], "typelib.py.refs.evaluate") and x[2][0][2][:1] == (C.sattr("t"),):
+                            evaluated = True
+        n += 1
+        rep.check(evaluated and not raw, "R12.10", first.routine.qualname, res.loc, "the proxy resolves the class its reference names now (the factory is keyed by that class)", f"the proxy hands its reference to the memoised {factory.rsplit('.', 1)[-1]}(): references compare by (text, module), so the entry made for an earlier class of that name is served -- after a class is re-defined (importlib.reload, a re-run notebook cell) the nested members of the new class are built as instances of the old one, new fields dropped", detail="reference-key")
+    return n
+
+
 def run(prog: Program, rep: Report, tier: str):
+    rep.rule("R12.10", "lazy proxies resolve the class their reference names now", floor=2)
+    r12_10(prog, rep)
     rep.rule("R12.9", "memoised functions do not remember answers reached by swallowing transient resource errors", floor=30)
     r12_9(prog, rep)
     rep.rule("R12.1", "no call-time state write that is read back (frozen latches excepted)", floor=3)
